@@ -20,6 +20,7 @@ EXPLANATION = (
     "C07.7: retH returns fftshift of the applied H. Not decided: rounding-level equality "
     "of compositions.")
 EXPLANATION += (" Second audit wave: C07.3 the dB-to-neper constant of FIBER's loss term equals 10/ln(10) to 1e-9 (the rounded 4.343 had been tolerated; it leaves the output power off by 1.5e-4 after 50 dB).")
+EXPLANATION += (' Wave 14: C07.10 no row of the field is singled out inside FIBER without a two-polarisation guard (the rank clause of C08.3 reported here: every polarisation is filtered alike).')
 TRUSTED = ["numpy.fft conventions (fft/ifft inverse, fftfreq grid)", "electrical_signal.__call__/w as checked in C02", "CPython ast"]
 
 REAL = {"D", "alpha", "beta_2", "beta_3", "gamma", "length", "gv.fs", "phi_max"}
@@ -141,6 +142,8 @@ def rule_fiber(ctx, E_dm):
     # "act as the linear filter exp(...)" for every input: the field returned is the propagated (complex) field itself, not a copy cast to
     # the storage type of the input - a field given as real samples would lose the imaginary part the dispersion gives it
     c08.rule_returned_field(ctx, fi, itn, "C07.9")
+    # C07.10 every polarisation is filtered alike: no row of the field is singled out inside FIBER (a row index on a rank-generic field)
+    c08.rule_rank_guard(ctx, fi, "C07.10")
     # gamma == 0 -> single full-length step
     it0 = Interp(pkg, assumptions={"show_progress": False, "input.noise": "none", "gamma": 0}, param_classes={"input": "optical_signal"})
     it0.run(fi)
